@@ -66,7 +66,7 @@ var c10NearMiss = [][]byte{
 
 // c10Leads: lead bytes of other multi-byte encodings (2, 3 and 4 bytes long), a continuation byte, the markers'
 // own lead byte, both markers, LF and an ordinary byte: truncated foreign sequences next to markers / line feeds.
-var c10Leads = [][]byte{{0xC3}, {0xE1}, {0xF0}, {0x97}, {0xE2}, {0xE2, 0x80, 0xB9}, {0xE2, 0x80, 0xBA}, {'\n'}, {'a'}}
+var c10Leads = [][]byte{{0xC3}, {0xE1}, {0xF0}, {0x97}, {0xEF, 0xBF, 0xBD}, {0xF0, 0x9F, 0x98, 0x80}, {0xF0, 0x9F}, {0xE2}, {0xE2, 0x80, 0xB9}, {0xE2, 0x80, 0xBA}, {'\n'}, {'a'}}
 
 var (
 	c10StartB    = []byte{0xE2, 0x80, 0xB9}
